@@ -6,6 +6,7 @@
   panic sites included).  Specification: `Lace/Spec/CmdGrammar.lean` (the documented grammar).
 -/
 import Lace.Proofs.CmdInteger
+import Lace.Proofs.CmdTransport
 namespace Lace.C14
 open Lace.Cmd Lace.CmdGrammar
 
@@ -21,5 +22,121 @@ example : CmdGrammar.integer "xLabel".toList = .none := by decide
 example : CmdGrammar.integer "00x4".toList = .err := by decide
 example : CmdGrammar.integer "2147483648".toList = .err := by decide
 example : CmdGrammar.integer "2147483647".toList = .ok 2147483647 := by decide
+
+/-- D24 on the unchanged code: with `integer = 214748364` the guard
+`integer > i32::MAX / 10` does not fire, `integer *= 10` fits, and `integer += 8` overflows. -/
+example : ¬ ((214748364 : Int) > I32_MAX / 10) ∧ inI32 (214748364 * 10) ∧
+    ¬ inI32 (214748364 * 10 + 8) := by decide
+/-- After the fix (`checked_mul` / `checked_add`) the literal is rejected, not a panic. -/
+example : Cmd.parseLine "move r1 2147483648".toList = .err := by decide
+
+/-! ## Readers -/
+
+/-- **The two readers split text identically.**  For every text `s` and every `n`: reading `n`
+times from `Argument::from(s)` and reading `n` times from a standard input holding the UTF-8
+bytes of `s` give the same lines and the same status — namely the first `n` of `textLines s`
+(the maximal separator-free runs, nothing after a final separator), then end of input; neither
+ever panics.  There is no difference at the end of the input: a final line without separator is
+delivered by both, a final separator is followed by nothing in both. -/
+theorem split_argument_eq_split_stdin (s : List Char) (n : Nat) :
+    readN argStep n (Argument.from s) = readN stdinStep n (encode s) ∧
+    readN stdinStep n (encode s) =
+      ((textLines s).take n, if (textLines s).length < n then .eof else .more) := by
+  rw [readN_arg (argView_from s), readN_stdin, readN_text]
+  exact ⟨rfl, rfl⟩
+
+example : textLines "a;;b\nc;".toList = ["a".toList, [], "b".toList, "c".toList] := by decide
+example : textLines "é;x".toList = ["é".toList, "x".toList] := by decide
+example : (readN argStep 5 (Argument.from "a;;b".toList)) =
+    (["a".toList, [], "b".toList], .eof) := by decide
+
+/-- One `CommandReader::read` never panics when standard input is valid UTF-8 (I9), whatever
+the `--command` argument and however much of both has been consumed. -/
+theorem read_no_panic {r : Reader} {ta tb : List Char} (hv : RView r ta tb) (site : String) :
+    r.read ≠ .panic site := by
+  have := read_view hv
+  intro h
+  split at this
+  · obtain ⟨r', h'⟩ := this; rw [h] at h'; cases h'
+  · obtain ⟨r', _, _, h', _⟩ := this; rw [h] at h'; cases h'
+
+/-- **A session depends only on the sequence of pending lines** (`sessionL`: trim, skip blank
+lines, parse, count error reports), for every argument and every valid-UTF-8 standard input. -/
+theorem session_eq_lines (a : Option (List Char)) (b : List Char) :
+    session (Reader.from a (encode b)) = sessionL (textLines (a.getD []) ++ textLines b) :=
+  session_lines (rview_from a b)
+
+/-- **Transport independence.**  The commands, error reports and ending of a session are the
+same whether the script `a` arrives through `--command` and `b` through standard input, or
+`a`, a newline and `b` all arrive through standard input.  (The line *sequences* differ by at
+most one blank line at the junction — after an empty `a` or an `a` ending in a separator —
+which `read_from` skips.) -/
+theorem transport_independent (a b : List Char) :
+    session (Reader.from (some a) (encode b)) =
+      session (Reader.from none (encode (a ++ '\n' :: b))) := by
+  rw [session_eq_lines, session_eq_lines]
+  simp only [Option.getD_some, Option.getD_none]
+  have h := sessionL_join a b [] '\n' (by decide)
+  simp only [textLines, linesAux, if_true, List.nil_append] at h ⊢
+  exact h.symm
+
+/-- The same with `;` at the junction, and for a script given entirely as the argument. -/
+theorem transport_independent_semicolon (a b : List Char) :
+    session (Reader.from (some a) (encode b)) =
+      session (Reader.from none (encode (a ++ ';' :: b))) := by
+  rw [session_eq_lines, session_eq_lines]
+  simp only [Option.getD_some, Option.getD_none]
+  have h := sessionL_join a b [] ';' (by decide)
+  simp only [textLines, linesAux, if_true, List.nil_append] at h ⊢
+  exact h.symm
+
+theorem transport_independent_argument_only (a b : List Char) :
+    session (Reader.from (some a) (encode b)) =
+      session (Reader.from (some (a ++ '\n' :: b)) []) := by
+  have h1 := session_eq_lines (some a) b
+  have h2 := session_eq_lines (some (a ++ '\n' :: b)) []
+  simp only [encode_nil] at h2
+  rw [h1, h2]
+  simp only [Option.getD_some]
+  have h := sessionL_join a b [] '\n' (by decide)
+  simp only [textLines, linesAux, if_true, List.append_nil] at h ⊢
+  exact h.symm
+
+/-- **`;` ≡ newline.**  Replacing separators by separators (`f` maps `;` and newline to `;` or
+newline and fixes every other character) anywhere in the argument and in standard input does
+not change the session. -/
+theorem separators_equivalent (f : Char → Char)
+    (hf1 : ∀ c, isDelimiter (f c) = isDelimiter c) (hf2 : ∀ c, isDelimiter c = false → f c = c)
+    (a : Option (List Char)) (b : List Char) :
+    session (Reader.from (a.map (·.map f)) (encode (b.map f))) =
+      session (Reader.from a (encode b)) := by
+  rw [session_eq_lines, session_eq_lines]
+  cases a with
+  | none => simp only [Option.map_none, Option.getD_none, textLines, linesAux_map f hf1 hf2]
+  | some a => simp only [Option.map_some, Option.getD_some, textLines, linesAux_map f hf1 hf2]
+
+/-- The swap of `;` and newline satisfies the hypotheses of `separators_equivalent`. -/
+def swapSeparators (c : Char) : Char := if c = ';' then '\n' else if c = '\n' then ';' else c
+
+theorem swapSeparators_ok :
+    (∀ c, isDelimiter (swapSeparators c) = isDelimiter c) ∧
+    (∀ c, isDelimiter c = false → swapSeparators c = c) := by
+  constructor
+  · intro c
+    unfold swapSeparators isDelimiter
+    by_cases h1 : c = ';'
+    · subst h1; decide
+    · by_cases h2 : c = '\n'
+      · subst h2; decide
+      · simp [h1, h2]
+  · intro c h
+    unfold isDelimiter at h
+    unfold swapSeparators
+    simp at h
+    simp [h.1, h.2]
+
+example : session (Reader.from (some "help;bogus".toList) (encode "move r1 5\nquit".toList)) =
+    { events := [some .help, none, some (.move (.reg 1#3) 5#16), some .quit], ending := .eof } := by
+  rw [session_eq_lines]; decide
 
 end Lace.C14
